@@ -44,14 +44,14 @@ func (m *mockBlockStore) Height() int64 {
 	defer m.mtx.Unlock()
 	return m.height
 }
-func (m *mockBlockStore) Size() int64                             { return m.Height() }
-func (m *mockBlockStore) LoadBaseMeta() *tmtypes.BlockMeta        { return nil }
-func (m *mockBlockStore) LoadBlockMeta(int64) *tmtypes.BlockMeta  { return nil }
-func (m *mockBlockStore) LoadBlockByHash([]byte) *tmtypes.Block   { return nil }
-func (m *mockBlockStore) LoadBlockPart(int64, int) *tmtypes.Part  { return nil }
-func (m *mockBlockStore) LoadBlockCommit(int64) *tmtypes.Commit   { return nil }
-func (m *mockBlockStore) LoadSeenCommit(int64) *tmtypes.Commit    { return nil }
-func (m *mockBlockStore) PruneBlocks(int64) (uint64, error)       { return 0, nil }
+func (m *mockBlockStore) Size() int64                                                 { return m.Height() }
+func (m *mockBlockStore) LoadBaseMeta() *tmtypes.BlockMeta                            { return nil }
+func (m *mockBlockStore) LoadBlockMeta(int64) *tmtypes.BlockMeta                      { return nil }
+func (m *mockBlockStore) LoadBlockByHash([]byte) *tmtypes.Block                       { return nil }
+func (m *mockBlockStore) LoadBlockPart(int64, int) *tmtypes.Part                      { return nil }
+func (m *mockBlockStore) LoadBlockCommit(int64) *tmtypes.Commit                       { return nil }
+func (m *mockBlockStore) LoadSeenCommit(int64) *tmtypes.Commit                        { return nil }
+func (m *mockBlockStore) PruneBlocks(int64) (uint64, error)                           { return 0, nil }
 func (m *mockBlockStore) SaveBlock(*tmtypes.Block, *tmtypes.PartSet, *tmtypes.Commit) {}
 func (m *mockBlockStore) LoadBlock(h int64) *tmtypes.Block {
 	m.mtx.Lock()
